@@ -4,7 +4,6 @@ use sut::consts::*;
 use sut::{real_cfg, toy_cfg};
 pub fn add(v: &mut Vec<sut::Cfg>) {
     toy_cfg!(v, U255, U1, "t");
-    toy_cfg!(v, U255, U3, "t");
     real_cfg!(v, kuznyechik::Kuznyechik, "Kuznyechik", "ot", add_ctr32, add_ctr64, add_ctr128, add_belt);
     real_cfg!(v, magma::Magma, "Magma", "ot", add_ctr32, add_ctr64);
 }
